@@ -20,16 +20,17 @@ DECODERS = ["rtp", "rtcp", "stun", "dtls_record", "dtls_hsmsg", "dtls_clienthell
 
 # groups of entry points run as separate TLC + harness passes (label, entries, MaxFeeds, shards)
 # live endpoints, grouped so that each TLC emission run stays short
-LIVE_ICE = ["turn_udp", "turn_tcp"]
+LIVE_ICE = ["turn_udp", "turn_tcp", "ice_udp", "ice_tcp"]
+LIVE_MEDIA = ["rtp_transport", "udptl"]
 LIVE_DTLS = ["dtls_server", "dtls_client"]
 LIVE_SCTP = ["sctp"]
 LIVE_PC = ["pc_sdp", "pc_candidate"]
 
 TIERS = {
     "quick": [("decoders", DECODERS, 1, 4), ("ice", LIVE_ICE, 1, 8), ("dtls", LIVE_DTLS, 1, 8), ("sctp", LIVE_SCTP, 1, 8),
-              ("pc", LIVE_PC, 1, 8)],
+              ("pc", LIVE_PC, 1, 8), ("media", LIVE_MEDIA, 1, 4)],
     "thorough": [("decoders", DECODERS, 1, 8), ("ice", LIVE_ICE, 1, 8), ("dtls", LIVE_DTLS, 1, 8), ("sctp", LIVE_SCTP, 1, 8),
-                 ("pc", LIVE_PC, 1, 8)],
+                 ("pc", LIVE_PC, 1, 8), ("media", LIVE_MEDIA, 1, 4)],
 }
 VARIANTS = {"quick": 2, "thorough": 8}
 
